@@ -149,7 +149,7 @@ Check C13_link_at_nothing :
     link_at v bs p = Ok None.
 Print Assumptions C13_link_at_nothing.
 
-(* F3, repaired (9f6ec66): as found a list whose first item is empty made link_at panic; the repaired link_at finds the link of the second item *)
+(* F3, repaired (d2c35b3): as found a list whose first item is empty made link_at panic; the repaired link_at finds the link of the second item *)
 Theorem C13_empty_item_refuted :
   exists p : pos, link_at as_found bad_list_witness p = Panic "line_range: unwrap on None" /\ p = (1, 3) /\
                   link_at repaired bad_list_witness p = Ok (Some (PNode (KLink Regular "x") ((1, 2), (1, 8)) [PStr 1])).
@@ -179,7 +179,7 @@ Check C13_last_line_refuted :
             spec_lines w_last_line_text 0 11 = (0, 2).
 Print Assumptions C13_last_line_refuted.
 
-(* repaired (ce73eb4): as found the implicit paragraph of a tight list item got the range of its first inline, the link on the continuation line was not found *)
+(* repaired (0e730dd): as found the implicit paragraph of a tight list item got the range of its first inline, the link on the continuation line was not found *)
 Theorem C13_tight_item_refuted :
   exists d, read_events (code_mode as_found w_tight_text) w_tight_events = Ok d /\
             link_at as_found d (1, 9) = Ok None /\
@@ -259,7 +259,7 @@ Check C13_reader_spec_as_found_refuted :
   read_events (code_mode as_found w_tight_text) w_tight_events <> read_events (spec_mode w_tight_text) w_tight_events.
 Print Assumptions C13_reader_spec_as_found_refuted.
 
-(* repaired (8eeccd5): as found links in table cells were never found (tables had no child inlines) *)
+(* repaired (113c625): as found links in table cells were never found (tables had no child inlines) *)
 Theorem C13_table_refuted :
   exists d, read_events (code_mode as_found w_table_text) w_table_events = Ok d /\
             link_at as_found d (2, 3) = Ok None /\
